@@ -446,3 +446,54 @@ def one_shot_stored_for_reuse(rep: Report, rule: str, funcs: Iterable[FuncInfo])
                     n += 1
                     rep.bad(rule, f"{f.short}: no one-shot iterator is stored in a field", f.loc(c), construct=norm(c)[:90], detail="the field can be iterated once; later readers see it empty", function=f.qualname)
     return n
+
+
+def loop_variable_used_after_loop(rep: Report, rule: str, funcs: Iterable[FuncInfo], report_ok: bool = True) -> int:
+    """A statement that follows an inner `for` loop inside an enclosing loop and reads that inner loop's target acts
+    on the last element only (the usual cause: a line that lost one level of indentation). Decided with reaching
+    definitions: the read is flagged when every definition of the name that reaches it is the target of a `for`
+    loop (this inner loop, or an earlier one when this one does not iterate) — i.e. nothing re-binds it on purpose.
+    Returns the number of nested loops examined."""
+    from .dataflow import reaching_defs
+    from .rules import cfg_of
+
+    n = 0
+    for f in funcs:
+        nested = [(outer, i, st) for outer in ast.walk(f.node) if isinstance(outer, (ast.For, ast.While)) for i, st in enumerate(outer.body) if isinstance(st, ast.For)]
+        if not nested:
+            continue
+        cfg = None
+        rd = None
+        for outer, i, st in nested:
+            targets = {x.id for x in ast.walk(st.target) if isinstance(x, ast.Name)}
+            if not targets:
+                continue
+            n += 1
+            bad = None
+            for later in outer.body[i + 1 :]:
+                # reads inside a comprehension / lambda that binds the same name refer to that binding
+                shadowed = set()
+                for comp in ast.walk(later):
+                    if isinstance(comp, (ast.ListComp, ast.SetComp, ast.DictComp, ast.GeneratorExp)):
+                        bound = {z.id for g in comp.generators for z in ast.walk(g.target) if isinstance(z, ast.Name)}
+                        shadowed |= {id(z) for z in ast.walk(comp) if isinstance(z, ast.Name) and z.id in bound}
+                    elif isinstance(comp, ast.Lambda):
+                        bound = {a.arg for a in comp.args.args}
+                        shadowed |= {id(z) for z in ast.walk(comp) if isinstance(z, ast.Name) and z.id in bound}
+                for y in ast.walk(later):
+                    if not (isinstance(y, ast.Name) and isinstance(y.ctx, ast.Load) and y.id in targets) or id(y) in shadowed:
+                        continue
+                    if cfg is None:
+                        cfg = cfg_of(f)
+                        rd = reaching_defs(cfg)
+                    nodes = cfg.node_containing(y)
+                    if not nodes:
+                        continue
+                    defs = rd[nodes[0]].get(y.id, set())
+                    if defs and all(d.kind == "for" for d in defs) and any(d.kind == "for" and d.owner is st for d in defs):
+                        bad = bad or (later, y.id)
+            if bad is not None:
+                rep.bad(rule, f"{f.short}: `{bad[1]}` is not used after the loop that binds it", f.loc(bad[0]), construct=f"{norm(bad[0])[:70]} after `for {norm(st.target)} in {norm(st.iter)[:30]}`", detail=f"the statement reads the loop variable `{bad[1]}` once per iteration of the enclosing loop, after the inner loop has finished: only the last element of the inner loop is treated (a line that lost one level of indentation)", function=f.qualname)
+            elif report_ok:
+                rep.ok(rule, f"{f.short}: the targets of the inner loop over {norm(st.iter)[:30]} are not read after it", f.loc(st), function=f.qualname)
+    return n
